@@ -16,6 +16,9 @@ RULE = (
     "executor and no instruction of a function region executed without a call.  X-RUN explores every device-answer sequence.  "
     "Non-trivial case = >= 2 distinct effect traces explored."
 )
+RULE += (
+    ' Also DEADLIB: code dropped at compile time (6 constant guards) that mentions a library function which has one live call site, in terminating and endless programs.'
+)
 ASSUME = [
     "reference IC10 machine M and reference executor R as in C01; running past the last line halts the chip",
     "instruction owners come from the harness-side wrapper of generate_code.assign_registers",
@@ -33,6 +36,13 @@ def build_cases(tier):
     # constant-flag guards: a function whose only call sites are in pruned code must not be emitted at all
     for c in F.dead(tier):
         cases.append(dict(c, variants=CONV))
+    # dropped code that mentions a library function: the mention must not change what is emitted behind a terminating main
+    for c in F.deadlib(tier):
+        if c["family"] == "DEADLIB":
+            cases.append(dict(c, variants=CONV))
+        else:
+            cases.append(dict(c, variants=[v for v in CONV if v["inline_functions"]]))
+            cases.append(dict(c, variants=[v for v in CONV if not v["inline_functions"]], family="W-F07"))
     # nested inlining with suffix / prefix name pairs: nothing may be left behind the main code
     from .c05 import is_f05b
 
